@@ -176,7 +176,9 @@ def check(run: Run) -> None:
                         "feedback reader is not re-woken by the delivery (shared with C03.e, C03.e2, C03.e3)"):
         from . import c03
         sub = Run("C08", run.tier, run.tree, quiet=True)
-        c03.check(sub)
+        sub.is_sub = True
+        if not getattr(run, "is_sub", False):
+            c03.check(sub)
         run.evaluations += sub.evaluations
         run.count(1, "C08.f")
         for f in sub.findings:
@@ -185,6 +187,13 @@ def check(run: Run) -> None:
         for e in sub.errors:
             if e.startswith("C03.e"):
                 raise AnalysisError("model-mismatch", e)
+
+    with run.obligation("C08.g", "K2+K1", "the delivery wake-up (one smallest step later) booked inside a wrapped or paused sub-graph reaches its owner: try_except propagates "
+                        "the child's schedule after a captured failure too, and a resumed graph cycle keeps the earliest wake-up it had already collected "
+                        "(shared with C15.c, C02.c)"):
+        from . import c15, c02
+        R.share(run, "C08.g", c15, ["C15.c"])
+        R.share(run, "C08.g", c02, ["C02.c"])
 
 
 VARIANTS = [
